@@ -268,22 +268,52 @@ Theorem C12_edges_refuted_wildcard_reexport :
   (class_wildcard_reexport wildcard = true) /\ (star_free wildcard = false).
 Proof. exact wildcard_reexport_not_followed. Qed.
 
+(* ---- conditions that mention TYPE_CHECKING (Deps/TcGuard.v; F63 repaired by baf3931) ------------------------------
+   FULL STATEMENT "model_tc e = spec_tc e for every condition" cannot hold of any static analysis: the value of
+   `TYPE_CHECKING or X` depends on X.  Proved instead, for every condition over TYPE_CHECKING, typing.TYPE_CHECKING,
+   True / False, other names, not / and / or / == / != / is / is not:
+   - soundness for every value of the other names (no runtime import is ever lost): a body / an else branch the
+     analyser takes for type-checking-only is not executed;
+   - exactness when no other name occurs: the analyser's reading is Python's;
+   - the reading does not depend on the values of the other names (it is the three-valued evaluation runtimeValue
+     with TYPE_CHECKING = False), so a branch counted as runtime code although it is dead is one that runs for other values. *)
+Theorem C12_tc_guard_sound : forall e,
+  (model_tc e = true -> spec_tc e = true) /\ (model_tc_else e = true -> spec_tc_else e = true).
+Proof. exact guard_sound. Qed.
+
+Theorem C12_tc_guard_exact : forall e, flag_free e = true -> containsTypeChecking e = true ->
+  model_tc e = spec_tc e /\ model_tc_else e = spec_tc_else e.
+Proof. exact guard_exact. Qed.
+
+Theorem C12_tc_guard_value_sound : forall e v, runtimeValue e = Some v -> eval_guard e = v.
+Proof. exact runtimeValue_sound. Qed.
+
+Theorem C12_tc_guard_independent_of_other_names : forall e f, same_shape e f = true ->
+  model_tc e = model_tc f /\ model_tc_else e = model_tc_else f.
+Proof. exact guard_shape. Qed.
+
 (* `if TYPE_CHECKING:`, `if typing.TYPE_CHECKING:` and every conjunction with one of them on either side is recognised
    as type-checking-only, and Python never runs its body *)
 Theorem C12_tc_guard_conjunction_agrees : forall e, tc_conjunction e = true -> model_tc e = true /\ spec_tc e = true.
 Proof. exact tc_conjunction_agrees. Qed.
 
-(* a condition that does not mention TYPE_CHECKING, and every `not ...`, is runtime code for the analyser *)
-Theorem C12_tc_guard_only_if_mentioned : forall e, containsTypeChecking e = false -> model_tc e = false.
+(* a condition that does not mention TYPE_CHECKING is runtime code for the analyser, body and else branch *)
+Theorem C12_tc_guard_only_if_mentioned : forall e, containsTypeChecking e = false ->
+  model_tc e = false /\ model_tc_else e = false.
 Proof. exact no_tc_not_guard. Qed.
 
-(* FULL STATEMENT "model_tc e = spec_tc e for every condition" is false (F63): `TYPE_CHECKING or True` and
-   `TYPE_CHECKING == False` are true at run time and taken for type-checking guards *)
-Theorem C12_tc_guard_refuted_or : model_tc (GOr GTc (GFlag true)) = true /\ spec_tc (GOr GTc (GFlag true)) = false.
-Proof. exact guard_refuted_or. Qed.
-
-Theorem C12_tc_guard_refuted_compare : model_tc (GEq GTc (GFlag false)) = true /\ spec_tc (GEq GTc (GFlag false)) = false.
-Proof. exact guard_refuted_compare. Qed.
+(* the inputs that exposed F63 (formerly C12_tc_guard_refuted_or / _refuted_compare): `TYPE_CHECKING or X`,
+   `not TYPE_CHECKING and X`, `TYPE_CHECKING == False`, `typing.TYPE_CHECKING is not True` are runtime code;
+   `not TYPE_CHECKING` makes the else branch type-checking-only, `not not TYPE_CHECKING` the body *)
+Theorem C12_tc_guard_repaired_witnesses :
+  (forall x, model_tc (GOr GTc (GFlag x)) = false /\ model_tc_else (GOr GTc (GFlag x)) = false) /\
+  (forall x, model_tc (GAnd (GNot GTc) (GFlag x)) = false /\ model_tc_else (GAnd (GNot GTc) (GFlag x)) = false) /\
+  (model_tc (GEq GTc (GConst false)) = false /\ spec_tc (GEq GTc (GConst false)) = false /\ model_tc_else (GEq GTc (GConst false)) = true) /\
+  (model_tc (GNe GTcAttr (GConst true)) = false /\ spec_tc (GNe GTcAttr (GConst true)) = false) /\
+  (model_tc (GNot GTc) = false /\ model_tc_else (GNot GTc) = true /\ spec_tc_else (GNot GTc) = true) /\
+  (model_tc (GNot (GNot GTc)) = true /\ spec_tc (GNot (GNot GTc)) = true) /\
+  (model_tc (GOr GTc (GConst true)) = false /\ model_tc_else (GOr GTc (GConst true)) = true).
+Proof. exact guard_repaired_witnesses. Qed.
 
 Print Assumptions C12_options_default_is_model.
 Print Assumptions C12_follow_relative_off.
@@ -291,7 +321,10 @@ Print Assumptions C12_include_options_irrelevant.
 Print Assumptions C12_include_third_party_refuted_namespace.
 Print Assumptions C12_edges_refuted_src_layout.
 Print Assumptions C12_edges_refuted_wildcard_reexport.
+Print Assumptions C12_tc_guard_sound.
+Print Assumptions C12_tc_guard_exact.
+Print Assumptions C12_tc_guard_value_sound.
+Print Assumptions C12_tc_guard_independent_of_other_names.
 Print Assumptions C12_tc_guard_conjunction_agrees.
 Print Assumptions C12_tc_guard_only_if_mentioned.
-Print Assumptions C12_tc_guard_refuted_or.
-Print Assumptions C12_tc_guard_refuted_compare.
+Print Assumptions C12_tc_guard_repaired_witnesses.
